@@ -111,14 +111,32 @@ Definition item_kinds (r : rep) : list Z :=
 (* what the harness saw for one `indent` mode: status 1 = returned a string, negative =
    raised; whether the string is the indented form; the attribute names in the order
    shown; per attribute the kind of its value followed by the kinds of its items *)
-Record robs := mk_robs { r_status : Z; r_ind : bool; r_names : list nat; r_kinds : list (list Z) }.
+Record robs := mk_robs { r_status : Z; r_ind : bool; r_names : list nat; r_kinds : list (list Z);
+                         r_tree : list Z }.
+
+(* the whole rendering, flattened (dict keys omitted); the harness sends it when no
+   nested instance was rendered in its indented form, i.e. when the model's length
+   oracle for nested instances is known to be `false`; [] = not sent *)
+Fixpoint enc_tree (r : rep) : list Z :=
+  match r with
+  | RMeth x => 4 :: enc_tree x
+  | RCompact _ None => [5; 0]
+  | RCompact _ (Some k) => 5 :: 1 :: enc_tree k
+  | RSeq items => 6 :: Z.of_nat (length items) :: flat_map enc_tree items
+  | RMap items => 7 :: Z.of_nat (length items) :: flat_map (fun kv => enc_tree (snd kv)) items
+  | RFull c ind fs =>
+      9 :: Z.of_nat c :: b2z ind :: Z.of_nat (length fs)
+        :: flat_map (fun f => Z.of_nat (fst f) :: enc_tree (snd f)) fs
+  | _ => [kind_of r]
+  end.
 
 Definition enc_rep (r : res rep) : robs :=
   match r with
-  | Ok (RFull _ ind fs) =>
+  | Ok (RFull c ind fs) =>
       mk_robs 1 ind (map fst fs) (map (fun f => kind_of (snd f) :: item_kinds (snd f)) fs)
-  | Ok _ => mk_robs 0 false [] []
-  | Err e => mk_robs (- Z.of_nat (err_code e)) false [] []
+              (enc_tree (RFull c ind fs))
+  | Ok _ => mk_robs 0 false [] [] []
+  | Err e => mk_robs (- Z.of_nat (err_code e)) false [] [] []
   end.
 
 Fixpoint natlist_eqb (a b : list nat) : bool :=
@@ -128,9 +146,11 @@ Fixpoint natlist_eqb (a b : list nat) : bool :=
   | _, _ => false
   end.
 
+(* a = model, b = observed *)
 Definition robs_eqb (a b : robs) : bool :=
   (r_status a =? r_status b) && Bool.eqb (r_ind a) (r_ind b) &&
-  natlist_eqb (r_names a) (r_names b) && zlistlist_eqb (r_kinds a) (r_kinds b).
+  natlist_eqb (r_names a) (r_names b) && zlistlist_eqb (r_kinds a) (r_kinds b) &&
+  match r_tree b with [] => true | t => zlist_eqb (r_tree a) t end.
 
 Record repr_case := mk_repr { p_cls : list cls; p_heap : heap; p_root : nat;
                               p_false : robs; p_true : robs; p_none : robs }.
@@ -145,7 +165,11 @@ Definition check_repr (c : repr_case) : nat :=
   let ok := fun (o : robs) => (r_status o =? 1) && natlist_eqb (r_names o) want in
   if ok (p_false c) && ok (p_true c) && ok (p_none c) then
     let n := repr_fuel h in
-    let long := fun l => Nat.eqb l (p_root c) && r_ind (p_none c) in
+    (* the top-level call (nothing active) is long iff the harness saw the indented
+       form; nested instances are taken as not long (the full tree is only compared
+       when that is what the implementation did) *)
+    let long := fun (act : list nat) (l : nat) =>
+                  match act with [] => r_ind (p_none c) | _ => false end in
     let run := fun md => enc_rep (repr ct h long n (p_root c) md) in
     if robs_eqb (run MFalse) (p_false c) && robs_eqb (run MTrue) (p_true c)
        && robs_eqb (run MNone) (p_none c)
